@@ -60,3 +60,38 @@ func (c *ShipConnection) VerifArmTimer(timerType int, d time.Duration) {
 func (c *ShipConnection) VerifStopTimer() {
 	c.stopHandshakeTimer()
 }
+
+// VerifTimerToken identifies the currently armed handshake timer (nil if none is armed)
+func (c *ShipConnection) VerifTimerToken() interface{} {
+	c.handshakeTimerMux.Lock()
+	defer c.handshakeTimerMux.Unlock()
+
+	if !c.handshakeTimerRunning {
+		return nil
+	}
+	return c.handshakeTimerStopChan
+}
+
+// VerifFireTimeoutOf lets the timer identified by the token expire now: it does what that timer's
+// goroutine does on expiry, including the check that it is still the armed timer and was not stopped.
+// Returns false if the timer was stopped or replaced in the meantime.
+func (c *ShipConnection) VerifFireTimeoutOf(token interface{}) bool {
+	stopChan, ok := token.(chan struct{})
+	if !ok || stopChan == nil {
+		return false
+	}
+
+	c.handshakeTimerMux.Lock()
+	if c.handshakeTimerStopChan != stopChan || !c.handshakeTimerRunning {
+		c.handshakeTimerMux.Unlock()
+		return false
+	}
+	c.handshakeTimerRunning = false
+	close(stopChan) // the timer's own goroutine ends without reporting
+	c.handshakeTimerMux.Unlock()
+
+	if !c.isConnectionClosed() {
+		c.handleState(true, nil)
+	}
+	return true
+}
